@@ -529,7 +529,7 @@ impl Check for C16 {
         "C16"
     }
     fn level(&self) -> &'static str {
-        "fault_injection_sim"
+        "exploration"
     }
     fn technique(&self) -> &'static str {
         "seeded whole-engine simulation: real router/session engine/tool runner/tools against a scripted provider stub that records every request; provider scripts (call items, argument deltas, done events, missing/duplicate ids, shuffled output_index, interleaving, chunking, missing [DONE], drops, error responses, endless tool requests) and tool_choice/history configuration drawn from the seed; oracle = from-scratch model of the calls each response emits, compared with recorded request bodies, tool frames and workspace files"
